@@ -8,7 +8,7 @@ the index map).  Peak clause on noiseless on-grid exponentials: ObsC17.tla.
 import numpy as np
 
 from .. import core, tlc, obs, zoo
-from ..kern_util import call_guard
+from ..kern_util import call_guard, np_int
 
 P_SPEC = 4
 
@@ -21,6 +21,11 @@ def replay_state(chk, st, rng):
         N = 24
         x = np.exp(2j * np.pi * 0.2 * np.arange(N)) + 0.5 * np.exp(2j * np.pi * 0.31 * np.arange(N)) + 0.1 * (rng.randn(N) + 1j * rng.randn(N))
         ns = {'none': None, 'negative': -1, 'zero': 0, 'valid': 2, 'equalP': P, 'aboveP': P + 3}[st['nsig']]
+        # the same integer as a python int or a numpy integer (np.arange / shape arithmetic hand those out)
+        cnta = getattr(chk, '_c17_args', 0)
+        chk._c17_args = cnta + 1
+        if ns is not None and cnta % 2:
+            ns = np.int64(ns)
         th = None if st['thr'] == 'none' else 2.0
         me = st['method'] if st['method'] != 'other' else 'dummy'
         case = {'NSIG': ns, 'threshold': th, 'criteria': st['crit'], 'method': me, 'accept': st['accept']}
@@ -188,7 +193,7 @@ def replay_music(chk, st, rng):
             if nfft < P:
                 continue
             case = {'P': P, 'tones': tones, 'N': N, 'NFFT': nfft, 'expect_denominators_by_bin': {m: D[(4 - m) % 4] for m in range(4)}}
-            ok, res = call_guard(eigen, x.copy(), P, NSIG=K, method='music', NFFT=nfft)
+            ok, res = call_guard(eigen, x.copy(), np_int(P, N), NSIG=np_int(K, N + c), method='music', NFFT=np_int(nfft, c))
             chk.evaluations += 1
             if not ok:
                 chk.violation('C17:music-exact:raises', 'eigen(music) raises %r on %d noiseless on-grid exponentials, P=%d' % (res, K, P), case)
